@@ -33,6 +33,11 @@ CONFIGS = {
                                  get=[("BUILD", 0), ("BASE64URL", None), ("URI_APPEND", None)],
                                  post=[("BUILD", 0), ("NETBIOS", None), ("URI_APPEND", None), ("BUILD", 1), ("PRINT", None)],
                                  recover=[("print", None), ("mask", None)]),
+    # path parameters (';') in the last segment of the configured URIs, as in the amazon profile
+    "semicolon_uris": dict(domains="a.example,/N4215/adj/amzn.us.sr.aps;sz=160x600;oe=ISO-8859-1", submit="/N4215/adi/amzn.us.sr.aps;sz=160x600",
+                           get=[("BUILD", 0), ("BASE64", None), ("PREPEND", b"session-token="), ("HEADER", b"Cookie")],
+                           post=[("BUILD", 0), ("BASE64URL", None), ("PARAMETER", b"sid"), ("BUILD", 1), ("BASE64", None), ("PRINT", None)],
+                           recover=[("print", None)]),
     "swapped_verbs": dict(domains="a.example,/in", submit="/out", verb_get="POST", verb_post="GET",
                           get=[("BUILD", 0), ("BASE64", None), ("PRINT", None)],
                           post=[("BUILD", 0), ("BASE64URL", None), ("PARAMETER", b"i"), ("BUILD", 1), ("BASE64URL", None), ("HEADER", b"X-Data")],
